@@ -113,7 +113,16 @@ JudgeSeq(rec) ==
        ELSE V(FALSE, "op-sequence", "after operation " \o ToString(first) \o " (" \o ops[first].op \o
               ") of a sequence on one handle the directories or the handle are not what Copy/Move/Remove should leave")
 
-JudgeAny(rec) == IF rec.ev = "upseq" THEN JudgeSeq(rec)
+\* one path, two texts: each copy holds the control file of ITS parse and the file that text lists, nothing else
+JudgeReparse(rec) ==
+    LET Set(q) == {q[i] : i \in 1..Len(q)} IN
+    Guarded("same-path-parsed-again",
+       << <<~rec.panic, "panic">>, <<Len(rec.errs) = 2 /\ rec.errs = <<FALSE, FALSE>>, "plain upload without faults failed">> >>,
+       << <<Set(rec.a) = {<<rec.ctl, "full:ctlf1">>, <<"pkg_1.0.f1.tar.gz", "full:f1">>}, "the first copy is not the upload its control file describes">>,
+          <<Set(rec.b) = {<<rec.ctl, "full:ctlf2">>, <<"pkg_1.0.f2.tar.xz", "full:f2">>},
+            "a control file parsed again after it was rewritten is copied with the files of its EARLIER text">> >>)
+
+JudgeAny(rec) == IF rec.ev = "upreparse" THEN JudgeReparse(rec) ELSE IF rec.ev = "upseq" THEN JudgeSeq(rec)
                  ELSE IF "skipped" \in DOMAIN rec THEN V(TRUE, "aux", "")        \* no second filesystem on this machine
                  ELSE Judge(rec)
 
